@@ -26,7 +26,10 @@ type Opts struct {
 	NonStrEnv  bool // non-string scalars in env / matrix
 	Timestamps bool // allow unquoted timestamps in "any" positions (YAML only)
 	OnlyCommandish bool // only command steps and groups (signing worlds)
+	ShareSubtrees  bool // reuse generated subtrees (rendered as YAML anchor + aliases)
 	counter    int
+	pool       []*Node
+	shareID    int
 }
 
 func (o *Opts) str(pos string) string {
@@ -80,15 +83,63 @@ func (o *Opts) AnyValue(pos string, depth int) *Node {
 		}
 		return Str(o.str(pos + ".val"))
 	case 6:
+		if sh := o.reuse(pos); sh != nil {
+			return sh
+		}
 		n := t.Draw(4, pos+":seqn")
 		s := &Node{Kind: KSeq, Seq: []*Node{}}
 		for i := 0; i < n; i++ {
 			s.Seq = append(s.Seq, o.AnyValue(pos, depth+1))
 		}
-		return s
+		return o.remember(s)
 	default:
-		return o.AnyMap(pos, depth+1, o.mapSize(pos))
+		if sh := o.reuse(pos); sh != nil {
+			return sh
+		}
+		return o.remember(o.AnyMap(pos, depth+1, o.mapSize(pos)))
 	}
+}
+
+// reuse returns a copy of an earlier subtree (same Share group) some of the time.
+func (o *Opts) reuse(pos string) *Node {
+	if !o.ShareSubtrees || len(o.pool) == 0 || o.T.Draw(4, pos+":share?") != 3 {
+		return nil
+	}
+	src := o.pool[o.T.Draw(len(o.pool), pos+":sharewith")]
+	c := src.Clone()
+	// nested Share ids inside the copy would make anchors inside aliases ambiguous: keep only the top one
+	c.Walk("", func(_ string, x *Node) {
+		if x != c {
+			x.Share = 0
+		}
+	})
+	return c
+}
+
+func (o *Opts) remember(n *Node) *Node {
+	if !o.ShareSubtrees {
+		return n
+	}
+	nonEmpty := (n.Kind == KMap && len(n.Keys) > 0) || (n.Kind == KSeq && len(n.Seq) > 0)
+	if !nonEmpty {
+		return n
+	}
+	// a subtree that already contains shared parts is not itself shared
+	nested := false
+	n.Walk("", func(_ string, x *Node) {
+		if x != n && x.Share != 0 {
+			nested = true
+		}
+	})
+	if nested {
+		return n
+	}
+	o.shareID++
+	n.Share = o.shareID
+	if len(o.pool) < 6 {
+		o.pool = append(o.pool, n)
+	}
+	return n
 }
 
 // AnyMap generates a mapping with n unique generated keys.
@@ -262,7 +313,7 @@ func (o *Opts) Matrix() *Node {
 		}
 		m.Set("adjustments", adjs)
 	}
-	if t.Draw(6, "matrix:extra") == 5 {
+	if t.Draw(3, "matrix:extra") == 2 {
 		m.Set("x_"+o.str("matrix.xkey"), o.AnyValue("matrix.x", 2))
 	}
 	return m
